@@ -216,6 +216,23 @@ impl<'tcx> Cx<'tcx> {
             mir::ConstValue::Scalar(sc) => {
                 if let Ok(si) = sc.try_to_scalar_int() {
                     let _ = write!(s, ",\"int\":\"{}\"", si.to_bits(si.size()));
+                } else if let rustc_middle::mir::interpret::Scalar::Ptr(ptr, _) = sc {
+                    // a reference to constant memory: dump the pointee when it is plain bytes
+                    if let Some(pointee) = ty.builtin_deref(true) {
+                        if let Some(rustc_middle::mir::interpret::GlobalAlloc::Memory(alloc)) =
+                            tcx.try_get_global_alloc(ptr.provenance.alloc_id())
+                        {
+                            if let Ok(layout) = tcx.layout_of(env.as_query_input(pointee)) {
+                                let (_, off) = ptr.into_raw_parts();
+                                let start = off.bytes() as usize;
+                                let end = (start + layout.size.bytes() as usize).min(alloc.inner().len());
+                                if alloc.inner().provenance().ptrs().is_empty() && layout.is_sized() {
+                                    let bytes = alloc.inner().inspect_with_uninit_and_ptr_outside_interpreter(start..end);
+                                    let _ = write!(s, ",\"ref_bytes\":{}", esc(&hex(bytes)));
+                                }
+                            }
+                        }
+                    }
                 }
             }
             mir::ConstValue::ZeroSized => s.push_str(",\"zst\":true"),
